@@ -18,6 +18,13 @@ mod c18;
 fn main() {
     let mut it = std::env::args().skip(1);
     let cmd = it.next().unwrap_or_default();
+    if cmd == "b3" {
+        // helper for writing corpus cases by hand: BLAKE3 of each hex-encoded argument
+        for a in it {
+            println!("{}:{}", a, util::hex(blake3::hash(&util::unhex(&a)).as_bytes()));
+        }
+        return;
+    }
     let args = util::parse_args(it);
     // panics of the code under test are expected and caught (util::catch marks them); a panic of the harness itself
     // must say where it happened
